@@ -139,8 +139,8 @@ pub const META_C02: Meta = Meta {
         "the recording driver sees every call the crate makes (it is the only TestDriver instance)",
         "reference interpreter decides which rows are checked / mid-clock",
     ],
-    quick_cases: 30_000,
-    thorough_cases: 1_000_000,
+    quick_cases: 150000,
+    thorough_cases: 2000000,
     floor: 500,
 };
 
@@ -194,8 +194,8 @@ pub const META_C03: Meta = Meta {
     level: "exploration",
     rule: "Cases from profile `attrib`: 1-6 output-capable signals (incl. bidirectional and 64-bit ones), device layout = random subset in random order, answers drawn per (call,signal) from unique 64-bit numbers / Z / X / boundary values / small numbers. For every checked row the oracle recomputes, from the recorded device answer of that very call, what each `outputs[j]` must be (value reported for the same signal, else X) and checks check(), is_checked() and failing_outputs() against the X/Z rules on the observed triple; the reference interpreter's prescribed outputs are compared as well. Shard 0 additionally runs the exhaustive table of ExpectedValue::check / OutputValue::check over 44x44 boundary values. Non-trivial = layout is a strict subset or a non-identity permutation, >= 2 output-capable signals and >= 2 checked rows.",
     assumptions: &["unique per-(call,signal) device values make stale or cross-wired values evident"],
-    quick_cases: 30_000,
-    thorough_cases: 1_000_000,
+    quick_cases: 150000,
+    thorough_cases: 2000000,
     floor: 500,
 };
 
@@ -320,8 +320,8 @@ pub const META_C04: Meta = Meta {
     level: "exploration",
     rule: "Cases from profile `feedback`: programs reading device outputs in row entries, let, loop bounds, while conditions and ite branches (45% of identifier leaves), same names used as variables and outputs, C rows between reads, feedback devices (DONE after d calls), device answers unique per (call,signal) with Z/X scheduled at ~4%. Variant `missing` removes one read output from the device layout. Oracle: device-side input vectors, row inputs and un-truncated expected values must equal those prescribed by the reference, which resolves an identifier as variable-in-scope first, else the answer of the latest output-reading call (constructor call initially, never a mid-clock write); a read of Z/X must make exactly that item a runtime error naming the signal; a missing read output must make try_iter fail after exactly one device call. Non-trivial = >= 3 rows and >= 1 output read whose value differs between the two most recent output-reading calls (so a stale or early read would be visible).",
     assumptions: &["reference interpreter; unique answers make one-call-early / one-call-late reads visible"],
-    quick_cases: 30_000,
-    thorough_cases: 1_000_000,
+    quick_cases: 150000,
+    thorough_cases: 2000000,
     floor: 500,
 };
 
@@ -396,8 +396,8 @@ pub const META_C05: Meta = Meta {
     level: "exploration",
     rule: "Cases from profile `expand`: rows with 0-5 X and 0-3 C entries at any input positions (1-bit, multi-bit, bidirectional inputs), mixed with literals, expressions and bits(), at loop depth 0-3, permuted/partial headers. Oracle: the observed row sequence (inputs, expected, line, checked/mid-clock, call kind) equals the prescribed expansion: for a in 0..2^k (bit j of a drives the j-th X column from the left, so the leftmost varies fastest, 0 first), per assignment one checked row or the clock triple (C:=0 unchecked, C:=1 unchecked, C:=0 checked); expected X/Z never expanded. Shard 0 enumerates all rows of width <= 4 over {0,1,X,C,Z} on three configurations. Non-trivial = a source row with >= 2 X, or >= 2 C, or X and C together, or an expansion inside a loop.",
     assumptions: &["reference interpreter"],
-    quick_cases: 30_000,
-    thorough_cases: 1_000_000,
+    quick_cases: 120000,
+    thorough_cases: 1500000,
     floor: 500,
 };
 
@@ -527,8 +527,8 @@ pub const META_C06: Meta = Meta {
     level: "exploration",
     rule: "Cases from profile `binding`: signal lists of 2-11 signals in random order (inputs, outputs, bidirectionals interleaved, widths 1-62, defaults incl. Z), header = random subset in random order with bidirectional pairs split (D only / D_out only / both / separated), rows that repeat or change one column, X/C expansion and bits() spanning columns. Oracle: every row's inputs list is exactly the input-capable signals in TestCase.signals order (configured signals first, in the order given), values = column of that name else the default (reference); every checked row's outputs list is exactly the output-capable + virtual signals in order with expected = column `name` / `name_out` else X (reference); changed==false implies the value equals the one in the previous vector the driver received (constructor's default vector for the first row); header-omitted inputs are never flagged changed. Non-trivial = header order differs from signal order or header omits a signal, >= 2 inputs, >= 3 rows, and both a changed and an unchanged entry observed.",
     assumptions: &["reference interpreter for values; structure is decided from the model's header and signal list only"],
-    quick_cases: 30_000,
-    thorough_cases: 1_000_000,
+    quick_cases: 150000,
+    thorough_cases: 2000000,
     floor: 500,
 };
 
@@ -611,8 +611,8 @@ pub const META_C14: Meta = Meta {
     level: "exploration",
     rule: "Cases from profile `virtual`: 1-4 `declare` statements placed before, between, after rows and inside loop/while bodies, expressions over 1-3 device outputs (incl. bidirectional), program variables and loop counters deliberately named like the outputs the declarations read, C rows before checked rows, Z/X answers at ~5% of (call,signal) pairs, header with or without the virtual columns. Oracle: in every checked row the entry of each virtual signal (located by name) carries the declared expression evaluated by the reference over the answers of that very call with no variable visible, expected = column of that name else X; a Z/X operand makes exactly that item a runtime error (not a panic, not a value); vars() after every row still equals the program's variables. Non-trivial = >= 1 virtual signal evaluated on >= 2 checked rows with differing operands and >= 1 variable in scope with the name of an operand.",
     assumptions: &["reference interpreter; unique answers distinguish this row's outputs from the previous row's"],
-    quick_cases: 30_000,
-    thorough_cases: 1_000_000,
+    quick_cases: 150000,
+    thorough_cases: 2000000,
     floor: 300,
 };
 
@@ -679,8 +679,8 @@ pub const META_C18: Meta = Meta {
     level: "exploration",
     rule: "Cases from profile `flow` with deliberately overlapping name pools (n, i, output names, virtual-signal names), shadow depth up to 5, plus the `virtual` profile (the variable swap around virtual-signal evaluation must be undone). After every yielded row vars() is sampled and must equal the flattening (innermost binding wins) of the reference interpreter's frame stack at the moment the row's source statement was evaluated - so loop variables of ended loops are absent, shadowed outer values are back, and no output / virtual signal name appears unless a variable of that name is in scope. Non-trivial = a row yielded at frame depth >= 2 while some name is bound in two frames, or the first row after a loop has ended.",
     assumptions: &["reference interpreter's frame stack"],
-    quick_cases: 30_000,
-    thorough_cases: 1_500_000,
+    quick_cases: 150000,
+    thorough_cases: 3000000,
     floor: 500,
 };
 
@@ -721,8 +721,8 @@ pub const META_C19: Meta = Meta {
     level: "exploration",
     rule: "Cases from profile `layout-lines`: 0-5 blank lines before the header; after it any mix of blank lines, comment-only lines, trailing comments and ragged indentation; LF, CRLF and mixed endings; rows at depth 0-4, repeat rows, rows right after `end loop`, last line with and without newline. The printer records the 1-based line on which it prints each row item; the reference says which row item produces the k-th yielded row; every DataRow.line must equal that recorded line (the same for all X/C expansions and loop iterations). 40% of the cases are additionally embedded as a Testcase in a generated .dig document (entities / CDATA, indentation varied) and loaded through dig::File::parse(..).load_test(0), and 30% of the static ones are iterated through try_iter_static: lines must be the same, relative to the test's own source. Non-trivial = >= 1 blank or comment line above a row and (a row at depth >= 1 or a repeat row); distinct by source text.",
     assumptions: &["reference interpreter decides which source row each yielded row comes from"],
-    quick_cases: 30_000,
-    thorough_cases: 1_000_000,
+    quick_cases: 120000,
+    thorough_cases: 2000000,
     floor: 500,
 };
 
